@@ -6,6 +6,7 @@ import types
 from gen.canon import code_fields, cps, f2hex, hx
 
 _XT = {}
+_XPATH = []
 
 
 def _xtypes():
@@ -75,13 +76,27 @@ def xcanon(x, ver, native_ver=None, binary=False):
     if t is tuple:
         return {"t": "tuple", "v": [xcanon(e, ver) for e in x]}
     if t is list:
-        return {"t": "list", "v": [xcanon(e, ver) for e in x]}
+        if id(x) in _XPATH:
+            return {"t": "cycle", "v": len(_XPATH) - _XPATH.index(id(x))}
+        _XPATH.append(id(x))
+        try:
+            return {"t": "list", "v": [xcanon(e, ver) for e in x]}
+        finally:
+            _XPATH.pop()
     if t is set or t is frozenset:
         items = [xcanon(e, ver) for e in x]
         items.sort(key=_sortkey)
         return {"t": "set" if t is set else "frozenset", "v": items}
     if t is dict:
-        items = [[xcanon(k, ver), xcanon(v, ver)] for k, v in x.items()]
+        if id(x) in _XPATH:
+            return {"t": "cycle", "v": len(_XPATH) - _XPATH.index(id(x))}
+        _XPATH.append(id(x))
+        try:
+            items = [[xcanon(k, ver), xcanon(v, ver)] for k, v in x.items()]
+        finally:
+            _XPATH.pop()
+        if False:
+            items = []
         items.sort(key=lambda kv: _sortkey(kv[0]))
         return {"t": "dict", "v": items}
     if isinstance(x, T["code"]) or t is types.CodeType:
